@@ -7,7 +7,7 @@ func H_C02(tbl, router, stage int) {
 	h := vNewH(t)
 	c := h.build(vRouter(router))
 	pathCap := 12
-	if stage >= 2 {
+	if stage%10 >= 2 {
 		pathCap = 8
 	}
 	q := vSymRequest(stage, pathCap, 3, vSamplePaths(h.flat))
